@@ -7,7 +7,7 @@ Streams == ndJsonDeserialize(StreamFile)
 R(st, i) == st[((i - 1) % Len(st)) + 1]
 
 D(neg, n, e) == [neg |-> neg, coef |-> FromSmall(n), exp |-> e]
-Coefs == <<0, 1, 2, 5, 9, 10, 12, 99, 100, 101, 999, 1000, 12345>>
+Coefs == <<0, 1, 2, 5, 6, 8, 9, 10, 12, 64, 99, 100, 101, 512, 600, 999, 1000, 12345>>
 Exps  == <<-6, -5, -4, -3, -2, -1, 0, 1, 2, 3, 6>>
 Grid  == FlattenSeq([c \in 1..Len(Coefs) |-> FlattenSeq([e \in 1..Len(Exps) |->
             <<D(FALSE, Coefs[c], Exps[e]), D(TRUE, Coefs[c], Exps[e])>>])])     \* includes negative zeros
@@ -24,6 +24,21 @@ Unary(a) == << [op |-> "Neg", a |-> a], [op |-> "Abs", a |-> a], [op |-> "Sign",
 Binary(a, b) == << [op |-> "Add", a |-> a, b |-> b], [op |-> "Sub", a |-> a, b |-> b], [op |-> "Mul", a |-> a, b |-> b],
                    [op |-> "Cmp", a |-> a, b |-> b], [op |-> "Equal", a |-> a, b |-> b] >>
 
+\* the same value in another representation (coefficient x 10^k, exponent - k) and its neighbours in the last place:
+\* comparison must not depend on how a value is written
+RECURSIVE TenTo(_)
+TenTo(k) == IF k = 0 THEN 1 ELSE 10 * TenTo(k - 1)
+Rescaled == FlattenSeq(FlattenSeq([c \in 1..Len(Coefs) |-> [k \in 1..3 |->
+              LET a  == D(FALSE, Coefs[c], 0)   na == D(TRUE, Coefs[c], 0)
+                  b0 == D(FALSE, Coefs[c] * TenTo(k), 0 - k)
+                  b1 == D(FALSE, Coefs[c] * TenTo(k) + 1, 0 - k)
+                  nb == D(TRUE, Coefs[c] * TenTo(k), 0 - k)
+                  up == D(FALSE, Coefs[c] + 1, 0)
+              IN << [op |-> "Cmp", a |-> a, b |-> b0], [op |-> "Equal", a |-> a, b |-> b0], [op |-> "Cmp", a |-> b0, b |-> a],
+                    [op |-> "Cmp", a |-> a, b |-> b1], [op |-> "Equal", a |-> a, b |-> b1], [op |-> "Cmp", a |-> b1, b |-> up],
+                    [op |-> "Cmp", a |-> up, b |-> b0], [op |-> "Cmp", a |-> na, b |-> nb], [op |-> "Equal", a |-> nb, b |-> na],
+                    [op |-> "Cmp", a |-> nb, b |-> D(TRUE, Coefs[c] + 1, 0)] >>]]))
+
 \* every PairStride-th ordered pair of the grid, starting at the stream's offset (all pairs when PairStride = 1)
 NG == Len(Grid)
 Off == R(Streams[1].s, 1) % PairStride
@@ -36,6 +51,7 @@ Cases ==
       n == Len(g)
       ps == Pairs
   IN FlattenSeq([i \in 1..n |-> Unary(g[i])])
+     \o Rescaled
      \o FlattenSeq([i \in 1..Len(Extremes) |-> SubSeq(Unary(Extremes[i]), 1, 4)])
      \o FlattenSeq([k \in 1..Len(ps) |-> Binary(g[(ps[k] \div n) + 1], g[(ps[k] % n) + 1])])
      \o FlattenSeq([i \in 1..Len(Streams) |-> Binary(BigDec(Streams[i].s, 1), BigDec(Streams[i].s, 40))
